@@ -202,30 +202,16 @@ def main():
     for lo in range(0, len(valid), chunk):
         hi = min(len(valid), lo + chunk)
         conds.append(xh.Cond(H, "step", timeout=T, env=dict(env0, XH_S0="%d-%d" % (lo, hi)),
+                             cc={"ranges": [[0, len(valid)], [0, len(valid)], [0, 3]], "max": 400},
                              meta={"variant": "s0[%d,%d)" % (lo, hi), "family": "step",
                                    "bound": "first page in states %r" % (valid[lo:hi],)}))
-    conds.append(xh.Cond(H, "two_steps", timeout=T, env=env0, meta={"family": "history"}))
+    conds.append(xh.Cond(H, "two_steps", timeout=T, env=env0, meta={"family": "history"},
+                         cc={"ranges": [[1, 4], [1, 4], [0, 4], [0, 4], [1, 3]], "max": 300}))
     if "KF-C06-1" in kf_ids:
         conds.append(xh.Cond(H, "kf_deleted_page", timeout=T, env=env0, meta={"family": "known", "known_finding": "KF-C06-1"}))
     conds.append(xh.Cond(H, "step", timeout=30, twin=True, env=dict(env0, XH_S0="8-12"), meta={"variant": "s0[8,12)", "family": "twin"}))
     results = xh.run_all(conds)
     handle_xh(rep, results, replayer)
-    # engine cross-validation: the same harness function, untraced, on the whole finite state space
-    cc = xh.concrete_sweep(H, "step", [[0, len(valid)], [0, len(valid)], [0, 3]], env=env0)
-    if cc.get("error"):
-        rep.harness_error("concrete cross-validation of step failed to run: " + cc["error"])
-    else:
-        rec = rep.add("step#concrete-crosscheck", "python (untraced harness)", "confirmed" if not cc["n_bad"] else "refuted",
-                      "%d concrete runs of the harness function, %d False" % (cc["runs"], cc["n_bad"]), cc["wall_s"],
-                      cc["runs"], "engine-validation")
-        for b in cc["bad"][:3]:
-            ok, record = replayer("step", tuple(b["args"]), {}, {})
-            if ok:
-                rep.violation(record.get("summary", str(b)), dict(record, call="step%r" % (tuple(b["args"]),),
-                                                                  condition="step#concrete-crosscheck"))
-            else:
-                rep.harness_error("concrete run step%r is False (%s) but does not reproduce on the real code" % (
-                    tuple(b["args"]), b["why"]))
     rep.sample({"pre_state": {"files": [V2, None], "index": [V1, V1], "hashes": [V1, V1]}, "run": "db reindex"})
     sys.exit(rep.finish())
 
